@@ -129,14 +129,21 @@ func (m *mux) Vars(r *http.Request) map[string]string {
 	if len(params.Keys) == 0 {
 		return nil
 	}
+	// chi routes on the escaped path (URL.RawPath) when there is one, the
+	// captured values are then still escaped. Otherwise it routes on URL.Path
+	// which net/http has already unescaped: unescaping again would corrupt
+	// values that contain a literal percent sign (e.g. "%41" or "%2F").
+	escaped := r.URL.RawPath != ""
 	vars := make(map[string]string, len(params.Keys))
 	for i, k := range params.Keys {
-		if k == "*" {
-			wildcard := m.wildcards[r.Method+"::"+ctx.RoutePattern()]
-			vars[wildcard] = unescape(params.Values[i])
-			continue
+		v := params.Values[i]
+		if escaped {
+			v = unescape(v)
 		}
-		vars[k] = unescape(params.Values[i])
+		if k == "*" {
+			k = m.wildcards[r.Method+"::"+ctx.RoutePattern()]
+		}
+		vars[k] = v
 	}
 	return vars
 }
